@@ -59,7 +59,16 @@ theorem sideStable_sane (le : α → α → Bool) : (sideStable le).Sane :=
   fun keys => .inr ⟨_, rfl, stablePerm_perm le keys⟩
 
 theorem sideGiven_sane_on (p : List Nat) (keys : List α) (hp : p.Perm (List.range keys.length)) :
-    (sideGiven p : SideSort α) keys = .ok p ∧ p.Perm (List.range keys.length) := ⟨rfl, hp⟩
+    (sideGiven p : SideSort α) keys = .ok p ∧ p.Perm (List.range keys.length) := ⟨by simp [sideGiven, hp], hp⟩
+
+/-- the side sort of the unstable methods (whatever permutation it is given) respects std's contract on every key list, so the
+    receiver-level theorems (`C04_run_view`, `C13_run_owned`, `C13_run_ext`, the history theorems: all under `op.Sane`) apply
+    to the unstable sorts exactly as they do to the stable ones -/
+theorem sideGiven_sane (p : List Nat) : (sideGiven p : SideSort α).Sane := by
+  intro keys
+  by_cases hp : p.Perm (List.range keys.length)
+  · exact .inr ⟨p, by simp [sideGiven, hp], hp⟩
+  · exact .inl (by simp [sideGiven, hp])
 
 /-- **Every `sort_*_row*` method** (`Acc.sortRowWith`: the one body all six share; `side` = what its side sort does with the keys
     of the chosen row; `lim` = how many entries a side table may have):
@@ -127,7 +136,10 @@ theorem C16_sort_unstable_by_row (v : VW) (buf : List α) (h : v.Inv buf.length)
     (row < v.numRows → a.sortUnstableByRow indexRow buf lim p row = .ok (gather buf (v.mapCells (sortColsG p)))) ∧
     (¬ row < v.numRows → a.sortUnstableByRow indexRow buf lim p row = .error .panic) := by
   obtain ⟨h1, _, _, h4⟩ := C16_sort_row_with v buf h a ha indexRow hidx lim (sideGiven p) row
-  exact ⟨fun hr => h4 hr hlim p rfl hp, fun hr => h1 hr⟩
+  refine ⟨fun hr => h4 hr hlim p ?_ hp, fun hr => h1 hr⟩
+  have hp' := hp
+  rw [← C16_key_row_length v buf h row hr] at hp'
+  simp [sideGiven, hp']
 
 /-- the key and natural-order variants are the comparator variants with the derived comparator (src/sort.rs:68-76, 147-164) -/
 theorem C16_variants_delegate {κ : Type} (a : Acc) (indexRow : Nat → Res Win) (buf : List α) (lim : Nat)
